@@ -25,6 +25,10 @@ EXTRA = [
     ("two-continuous-states, second longer", {"p_w": 1.0, "p_z": 1.0, "sizes": {"w": 3, "z": 5}, "max_cells": 2500}),
     ("log-grid", {"p_log": 1.0, "p_w": 1.0, "p_z": 0.0}),
     ("several filters", {"p_r": 1.0, "p_choice_filter": 1.0, "p_state_filter": 0.5, "p_q": 0.4}),
+    ("near-ties between restricted choices", {"p_r": 1.0, "p_near_tie": 1.0, "p_b": 0.5, "max_cells": 800, "all_admitted": True}),
+    ("near-ties between restricted choices, one period", {"p_r": 1.0, "p_near_tie": 1.0, "p_b": 0.5, "T": [1], "sizes": {"a": 3}}),
+    ("near-ties between restricted choices, two restricted choices", {"p_r": 1.0, "p_near_tie": 1.0, "p_b": 1.0, "p_b_in_filter": 1.0, "T": [1, 2], "max_cells": 800}),
+    ("near-ties between unrestricted choices", {"p_r": 0.0, "p_a": 1.0, "p_b": 1.0, "p_near_tie": 1.0, "max_cells": 800}),
 ]
 PROFILES = LATTICE + EXTRA
 
@@ -85,7 +89,7 @@ def run(ctx: Ctx) -> Result:
 
         mc = mc_or_die("MC_Sim", "MC_Sim.cfg", workers=16)
         res.merge_cov(states=mc["distinct"], transitions=mc["generated"], mc_states=mc["distinct"])
-    specs = make_specs(ctx, ctx.n(96, 1400))
+    specs = make_specs(ctx, ctx.n(110, 1500))
     run_pipeline(ctx, res, specs, nontrivial=nontrivial)
     finalize_cov(res, "seeded random models over the lattice {filtered, unfiltered discrete choice} x {0,1,2 continuous "
                       "choices of unequal size} plus 5 extra strata; 1-8 agents on grid nodes, inside cells and outside "
